@@ -1,5 +1,7 @@
 import DelbModel.Model.Compare
 import DelbModel.Lemmas.Compare
+import DelbModel.Lemmas.Clone
+import DelbModel.Lemmas.CompareRoundtrip
 /-!
 # C17 — compare_trees reports equal exactly when two trees are equal
 
@@ -41,5 +43,66 @@ example : compare (fun n => match n with | .comment _ => false | _ => true)
     (.tag "" "r" [] [.comment "x".toList, .tag "" "a" [⟨"", "k", "1".toList⟩] []])
     (.tag "" "r" [] [.tag "" "a" [⟨"", "k", "2".toList⟩] [], .comment "y".toList])
     = some (.tagAttributes, [0]) := by rfl
+
+/-! ## in particular: a tree and its clone, a tree and its re-parsed serialization
+
+`compare` works on trees without node identities (`Node`); a tree with identities (`PTree`, the
+representation of the editing and cloning models) is compared through `Clone.strip`, which
+forgets the identities. -/
+
+/-- a tree and its deep clone (fresh identities from `n` on, `Edit.cloneP`) compare equal under
+    every filter -/
+theorem c17_clone_equal (f : Node → Bool) (n : Nat) (t : Edit.PTree)
+    (ht : wellFormed (Clone.strip t)) :
+    compare f (Clone.strip t) (Clone.strip (Edit.cloneP n t).1) = none := by
+  rw [Clone.strip_cloneP]
+  exact c17_reflexive f _ ht
+
+/-- the same for the clone the mechanism-level model makes on the text-node encoding (`Edit.cloneEl`) -/
+theorem c17_clone_equal_encoding (f : Node → Bool) (n : Nat) (e : Edit.El)
+    (ht : wellFormed (Clone.strip (Edit.abs e))) :
+    compare f (Clone.strip (Edit.abs e)) (Clone.strip (Edit.abs (Edit.cloneEl n e).1)) = none := by
+  have h := Edit.cloneEl_abs e n
+  have h1 : Edit.abs (Edit.cloneEl n e).1 = (Edit.cloneP n (Edit.abs e)).1 := by rw [h]
+  rw [h1]
+  exact c17_clone_equal f n (Edit.abs e) ht
+
+/-- a tree the serializer can write, in which adjacent text nodes are merged, no text node is empty
+    and attributes are in written order (`normalize t = t`), compares equal under every filter with
+    what is read back from its serialization (token level, `c02_roundtrip`) -/
+theorem c17_reparsed_equal (f : Node → Bool) (nsmap m : Ser.Dict) (hn : Ser.NsMapOk nsmap) (t : Node)
+    (htag : t.isTag = true) (hs : Ser.Serializable t) (hm : Ser.PMapOk nsmap m t)
+    (hnorm : Ser.normalize t = t) (toks : List Ser.Tok) (h : Ser.emitRoot m t = .ok toks) :
+    ∃ t', Ser.build toks = some t' ∧ compare f t t' = none := by
+  refine ⟨t, ?_, c17_reflexive f t (wellFormed_of_serializable t hs)⟩
+  rw [Ser.c02_roundtrip nsmap m hn t htag hs hm toks h, hnorm]
+
+/-- … and with the prefix map `_collect_prefixes` computes, for every accepted caller mapping and
+    every iteration order of the namespace sets (`c02_serialize_roundtrip`) -/
+theorem c17_reserialized_equal (f : Node → Bool) (nsmap : Ser.Dict) (hn : Ser.NsMapOk nsmap) (root : Node)
+    (htag : root.isTag = true) (hs : Ser.Serializable root) (hnorm : Ser.normalize root = root)
+    (orders : List (List String)) (ho : Ser.ordersValid root orders = true) (m : Ser.Dict)
+    (h : Ser.collect nsmap root orders = .ok m) :
+    ∃ toks t', Ser.emitRoot m root = .ok toks ∧ Ser.build toks = some t' ∧ compare f root t' = none := by
+  obtain ⟨toks, ht, hb⟩ := Ser.c02_serialize_roundtrip nsmap hn root htag hs orders ho m h
+  exact ⟨toks, root, ht, by rw [hb, hnorm], c17_reflexive f root (wellFormed_of_serializable root hs)⟩
+
+/-- without `normalize t = t` the re-read tree is `normalize t`, and the verdict is "equal" exactly
+    when the visible parts of `t` and `normalize t` are (e.g. split text nodes make it "different") -/
+theorem c17_reparsed_verdict (f : Node → Bool) (nsmap m : Ser.Dict) (hn : Ser.NsMapOk nsmap) (t : Node)
+    (htag : t.isTag = true) (hs : Ser.Serializable t) (hm : Ser.PMapOk nsmap m t)
+    (hw : wellFormed (Ser.normalize t)) (toks : List Ser.Tok) (h : Ser.emitRoot m t = .ok toks) :
+    ∃ t', Ser.build toks = some t' ∧
+      (compare f t t' = none ↔ Eqv (visible f t) (visible f (Ser.normalize t))) := by
+  exact ⟨Ser.normalize t, Ser.c02_roundtrip nsmap m hn t htag hs hm toks h,
+    c17_equal_iff f t _ (wellFormed_of_serializable t hs) hw⟩
+
+/-- non-vacuity: a clone with fresh identities compares equal; split text does not survive re-reading -/
+example : compare (fun _ => true)
+    (Clone.strip (.tag 0 "" "r" [⟨"", "k", "1".toList⟩] [.text 1 "a".toList, .comment 2 []]))
+    (Clone.strip (Edit.cloneP 10 (.tag 0 "" "r" [⟨"", "k", "1".toList⟩] [.text 1 "a".toList, .comment 2 []])).1)
+    = none := by rfl
+example : compare (fun _ => true) (.tag "" "r" [] [.text "a".toList, .text "b".toList])
+    (Ser.normalize (.tag "" "r" [] [.text "a".toList, .text "b".toList])) = some (.tagChildrenSize, []) := by rfl
 
 end Delb.Compare
